@@ -47,7 +47,8 @@ def run_native_test(src, BUILD, crate, wfile, unit, names, timeout=3600):
     nsrc = os.path.join(ndir, 'src')
     os.makedirs(nsrc, exist_ok=True)
     # --checksum: only files whose CONTENT differs are touched, so cargo rebuilds exactly what changed
-    subprocess.run(['rsync', '-a', '--checksum', '--delete', '--exclude', '/target', '--exclude', '*/tests/verif_witness_*',
+    # (no -t: changed files get a fresh mtime, see sync_tree)
+    subprocess.run(['rsync', '-rlpgoD', '--checksum', '--delete', '--exclude', '/target', '--exclude', '*/tests/verif_witness_*',
                     src + '/', nsrc + '/'], check=True, stderr=subprocess.DEVNULL, stdout=subprocess.DEVNULL)
     # harness lines appended for Kani must not leak into native builds
     tdir = os.path.join(nsrc, crate, 'tests')
